@@ -40,3 +40,118 @@ def u_l_h2(ctx):
         ctx.prove(meth + ": var/(var+var_err) == target heritability", pre, var.t / (var.t + ve) == h.t)
         ctx.prove(meth + ": var_err >= 0, and == 0 exactly when the target is 1", pre, z3.And(ve >= 0, (ve == 0) == (h.t == 1)))
         ctx.prove(meth + ": canary var_err == var", pre, ve == var.t, expect="fail", timeout_ms=3000)
+
+
+# ---------------------------------------------------------------------------------------------------
+# mode B: the real phenotype() on symbolic genotypic values and scripted (symbolic) normal draws
+from pyvc import barr, modeb
+R = lambda x: (z3.ToReal(_t(x)) if _t(x).sort() == z3.IntSort() else _t(x))
+
+
+@unit(P, "B[G_E_Phenotyping.phenotype: one record per taxon x environment x replicate == true value + env + rep + error draw, labels carried]",
+      "B", bounded=True, targets=[GE + ":G_E_Phenotyping.phenotype"],
+      note="bounded(shape): ntaxa<=3, ntrait<=2, nenv<=2, nrep<=2 per environment (incl. unequal and zero); genotypic values, variances and "
+           "every normal draw symbolic; a draw with zero variance equals its mean (assumed contract of multivariate_normal)")
+def u_b_phenotype(ctx):
+    f = loopcut.Extracted(GE + ":G_E_Phenotyping.phenotype", overrides={"check_is_PhasedGenotypeMatrix": lambda *a: None})
+    ctx.trust("numpy.random multivariate_normal(mean, diag(v), [n]) returns a vector / n rows of the mean's length; components with zero variance equal the mean")
+
+    def body(e, shape, tag):
+        n, t, nreps, labelled = shape
+        nenv = len(nreps)
+        G = barr.fresh("g", (n, t), "float64")
+        taxa = numpy.array(["L%d" % i for i in range(n)], dtype=object) if labelled else None
+        grp = numpy.arange(n, dtype="int64") + 7 if labelled else None
+        trait = numpy.array(["y%d" % k for k in range(t)], dtype=object) if labelled else None
+        pgtok = object()
+        calls = []
+
+        class GV:
+            ntaxa, ntrait = n, t
+            taxa_grp = grp
+
+            def unscale(self):
+                return G
+        GV.taxa, GV.trait = taxa, trait
+
+        class GP:
+            def gegv(self, pg):
+                calls.append(("gegv", pg))
+                return GV()
+
+        class Rng:
+            def __init__(self):
+                self.draws = []
+
+            def multivariate_normal(self, mean, cov, size=None):
+                k = len(mean)
+                shp = (k,) if size is None else (size, k)
+                out = barr.fresh("z%d" % len(self.draws), shp, "float64")
+                for idx in numpy.ndindex(*shp):
+                    e.assume(z3.Implies(R(cov[idx[-1], idx[-1]]) == 0, R(out[idx]) == R(mean[idx[-1]])))
+                self.draws.append(dict(mean=mean, cov=cov, size=size, out=out))
+                return out
+
+        class Me:
+            pass
+        me = Me()
+        me.gpmod, me.rng = GP(), Rng()
+        me.nenv = nenv
+        me.nrep = numpy.array(nreps, dtype="int64")
+        me.var_env = barr.fresh("venv", (t,), "float64", 0, None)
+        me.var_rep = barr.fresh("vrep", (t,), "float64", 0, None)
+        me.var_err = barr.fresh("verr", (t,), "float64", 0, None)
+        df = f(me, pgtok)
+        nrow = n * sum(nreps)
+        e.prove(tag + ":genotypic-values-from-the-bound-model-on-the-given-population", calls == [("gegv", pgtok)])
+        e.prove(tag + ":one-record-per-taxon-environment-replicate", len(df) == nrow)
+        cols = list(df.columns)
+        tcols = list(trait) if labelled else ["Trait%d" % (k + 1) for k in range(t)]
+        e.prove(tag + ":columns", cols[:4] == ["taxa", "taxa_grp", "env", "rep"] and [str(c) for c in cols[4:]] == [str(c) for c in tcols])
+        # expected draw protocol: per environment one env draw; per replicate one rep draw and one (ntaxa x t) error draw
+        d = me.rng.draws
+        e.prove(tag + ":number-of-draws", len(d) == nenv + 2 * sum(nreps))
+        pos, row = 0, 0
+        seen = set()
+        for env in range(nenv):
+            if pos >= len(d):
+                break
+            ed = d[pos]
+            pos += 1
+            for rep in range(nreps[env]):
+                if pos + 1 >= len(d):
+                    break
+                rd, xd = d[pos], d[pos + 1]
+                pos += 2
+                for i in range(n):
+                    r = df.iloc[row]
+                    lab_ok = (r["taxa"] == (taxa[i] if labelled else "Taxon%s" % str(i + 1).zfill(int(numpy.ceil(numpy.log10(n))) + 1))
+                              and int(r["env"]) == env + 1 and int(r["rep"]) == rep + 1
+                              and ((int(r["taxa_grp"]) == int(grp[i])) if labelled else r["taxa_grp"] is None))
+                    e.prove(tag + ":row%d:labels(taxon,group,env,rep)" % row, bool(lab_ok))
+                    seen.add((i, env, rep))
+                    for k in range(t):
+                        e.prove(tag + ":row%d:trait%d==true-value+env+rep+error" % (row, k),
+                                R(r[cols[4 + k]]) == R(G[i, k]) + R(ed["out"][k]) + R(rd["out"][k]) + R(xd["out"][i, k]))
+                    row += 1
+                for dd, var, sz in ((rd, me.var_rep, None), (xd, me.var_err, n)):
+                    e.prove(tag + ":draw-size@%d" % pos, dd["size"] == sz)
+                    e.prove(tag + ":draw-cov-is-diag(variance)@%d" % pos,
+                            z3.And(*[R(dd["cov"][a, b]) == (R(var[a]) if a == b else z3.RealVal(0)) for a in range(t) for b in range(t)]
+                                   + [R(dd["mean"][a]) == 0 for a in range(t)]))
+            e.prove(tag + ":env-draw-cov-is-diag(var_env)@%d" % env,
+                    z3.And(*[R(ed["cov"][a, b]) == (R(me.var_env[a]) if a == b else z3.RealVal(0)) for a in range(t) for b in range(t)]
+                           + [R(ed["mean"][a]) == 0 for a in range(t)]))
+        e.prove(tag + ":every-(taxon,env,rep)-exactly-once", len(seen) == nrow and row == nrow)
+        # zero noise: every record equals the true genotypic value
+        zero = z3.And(*[z3.And(R(me.var_env[k]) == 0, R(me.var_rep[k]) == 0, R(me.var_err[k]) == 0) for k in range(t)])
+        if nrow:
+            e.prove(tag + ":zero-variances=>records-equal-true-values",
+                    z3.Implies(zero, z3.And(*[R(df.iloc[rw][cols[4 + k]]) == R(G[rw % n, k]) for rw in range(nrow) for k in range(t)])))
+            e.prove(tag + ":canary:records-equal-true-values-with-noise",
+                    z3.And(*[R(df.iloc[rw][cols[4 + k]]) == R(G[rw % n, k]) for rw in range(nrow) for k in range(t)]), expect="fail", timeout_ms=2000)
+        return "ok"
+    shapes = [(1, 1, (1,), True), (2, 1, (2,), True), (2, 2, (1, 2), True), (3, 1, (2, 0), False), (2, 1, (1, 1), False)]
+    if ctx.tier == "thorough":
+        shapes += [(3, 2, (2, 2), True), (3, 2, (1, 2), False)]
+    modeb.run_shapes(ctx, "phenotype", shapes, body)
